@@ -51,6 +51,16 @@ func mk(op, aux string, typ types.Type, args ...*Term) *Term {
 	return t
 }
 
+// resetTerms empties the hash-consing table (keeping the package-level
+// constants): terms carry types.Type values of the program they were built
+// for, so a second program analysed in the same process must not find them.
+func resetTerms() {
+	termTab = map[string]*Term{}
+	for _, t := range []*Term{tNil, tTrue, tFalse} {
+		termTab[t.key] = t
+	}
+}
+
 func (t *Term) Key() string { return t.key }
 
 // String renders a readable form for reports.
